@@ -4,6 +4,6 @@ From AN Require Import Model.Lines Model.Framed.
 Extraction Language OCaml.
 Extraction "../ocaml/codec/gen.ml"
   run_lines decode_all_eof encode valid
-  rinit run_read Lines.decode Lines.decode_eof lp_decode lp_decode_eof lpd_decode_eof
+  rinit run_read Lines.decode Lines.decode_eof lp_decode lp_decode_eof lpd_decode_eof lps_decode_eof
   bytes_decode bytes_decode_eof
   run_write lines_encode bytes_encode lp_encode.
